@@ -457,6 +457,8 @@ EFFECTS = {
     "ev_int_add": [("m1", var_add("pv_int", -2))],
     "ev_new_var": [("m1", var_add("pv_new", 3))],
     "ev_eb": [("m1", var_add("extra_balls", 1))],
+    # the one *intended* cross-player write of the machine: `player: 1` in the variable_player entry
+    "ev_gift": [("m1", var_add("gift", 1), 1)],
     "ev_c_m2": [("m2", _p(counter_count, "c_m2"))],
     "ev_m2_str": [("m2", var_set("pv_str", "from_m2"))],
     "ev_m2_start": [],
